@@ -236,7 +236,6 @@ fn trace(a: &Args) -> i32 {
                 bump(&mut stats, "truncates");
                 ("truncate", false)
             } else if c < 93 {
-                if !disk_ok { continue; }
                 w.forget();
                 match Wal::open(&path) {
                     Ok(x) => w = x,
